@@ -153,6 +153,7 @@ example : leaksL demo.decls = false := by decide
 example : (visit { ident := 4 } (.block [.superInst tyAny none] false)).1.ident = 0 := by decide
 example : Agree (visitProgram (initObj none) demo) (initObj none) := visit_program_restores _ _ (Or.inl rfl)
 example : leaks (.block [.superInst tyAny none] false) = true ∧ leaks (.variable "x") = false := by decide
+example : (after (initObj (some "p")) [demo]).st.ident = 0 := by decide +kernel   -- hypothesis of `history_independent_from`
 example : Agree (resetState { st := { ident := 6, isUnit := true, cast := true }, package := some "p" })
     (initObj (some "p")) := resetState_agree _
 
